@@ -1,2 +1,4 @@
+pub mod bdl;
+pub mod building;
 pub mod geom;
 pub mod model;
